@@ -467,3 +467,37 @@ Proof.
   - destruct (has_task defs default_name); [exact (R _ H)|inversion H; subst; cbn in HS; destruct (f_quiet f || f_json f); discriminate].
   - exact (R _ H).
 Qed.
+
+(* ---- C10 / C01 over mixed histories: file edits, cache removal, torn cache files, runs killed at any micro-step, and complete
+   invocations with any flags ---- *)
+Inductive hstep := HOp (o : op) | HInvoke (f : flags) (req : list name).
+
+Section Histories.
+Variable pick : nat -> list name -> list name.
+Variable defs : list taskdef.
+Variable vars : list (name * bytes).
+
+Definition hstep_apply (s : st DI) (h : hstep) : st DI :=
+  match h with
+  | HOp o => apply_op_i s o
+  | HInvoke f req => fst (invoke pick defs vars s f req)
+  end.
+Definition mixed_history (fs : path -> option content) (hs : list hstep) : st DI := fold_left hstep_apply hs (init_i fs).
+
+Theorem mixed_history_inv fs hs : Inv_i (mixed_history fs hs).
+Proof.
+  unfold mixed_history. assert (H0 : Inv_i (init_i fs)) by (apply (reachable_inv DI deqb_i None digest_i deqb_i_spec fs [])).
+  revert H0. generalize (init_i fs). induction hs as [|h hs IH]; intros s H; cbn [fold_left]; [exact H|].
+  apply IH. destruct h as [o|f req]; cbn [hstep_apply].
+  - apply (apply_op_inv DI deqb_i None digest_i deqb_i_spec). exact H.
+  - destruct (invoke pick defs vars s f req) as [s' ob] eqn:E. cbn [fst]. exact (invoke_keeps_invariant pick defs vars s f req s' ob H E).
+Qed.
+
+(* after ANY such history, an invocation that reports a task as skipped is right about it *)
+Theorem skip_sound_after_any_history fs hs f req s' ob rs r :
+  (forall k l, Permutation (pick k l) l) ->
+  invoke pick defs vars (mixed_history fs hs) f req = (s', ob) -> ob_stdout ob = SDJson rs -> In r rs -> tr_skipped r = true ->
+  exists d F, find_def defs (tr_name r) = Some d /\
+              inputs_of (files DI s') (to_task d) = Some F /\ last_ok DI s' (tr_name r) = Some F.
+Proof. intros Hp. apply invocation_skip_sound; [exact Hp|apply mixed_history_inv]. Qed.
+End Histories.
